@@ -506,7 +506,7 @@ def graph_clone(sim: PCSim, root: Any) -> Any:
 
 
 ACTIONS = ("createOffer", "createAnswer", "setLocal(offer)", "setLocal(answer)", "setLocal(implicit)", "setRemote(offer)", "setRemote(answer)", "setRemote(mismatched answer)",
-           "setRemote(offer without ICE credentials)", "setRemote(offer without rtcp-mux)", "setRemote(answer with a=setup:actpass)", "setRemote(answer without rtcp-mux)", "close")
+           "setRemote(offer without ICE credentials)", "setRemote(offer without rtcp-mux)", "setRemote(answer with a=setup:actpass)", "setRemote(answer without rtcp-mux)", "setRemote(offer without a=setup)", "setRemote(answer without a=setup)", "close")
 SLOTS = ("__currentLocalDescription", "__pendingLocalDescription", "__currentRemoteDescription", "__pendingRemoteDescription")
 
 
@@ -593,6 +593,10 @@ class Subject:
             sim.call(pc, "setRemoteDescription", sim.desc("answer", re.sub(r"a=setup:\w+", "a=setup:actpass", self.answer_for_pending())))
         elif action == "setRemote(answer without rtcp-mux)":
             sim.call(pc, "setRemoteDescription", sim.desc("answer", "".join(l for l in self.answer_for_pending().splitlines(True) if l.strip() != "a=rtcp-mux")))
+        elif action == "setRemote(offer without a=setup)":
+            sim.call(pc, "setRemoteDescription", sim.desc("offer", "".join(l for l in self.texts["offer"].splitlines(True) if not l.startswith("a=setup:"))))
+        elif action == "setRemote(answer without a=setup)":
+            sim.call(pc, "setRemoteDescription", sim.desc("answer", "".join(l for l in self.answer_for_pending().splitlines(True) if not l.startswith("a=setup:"))))
         elif action == "close":
             sim.call(pc, "close")
         else:
